@@ -4,6 +4,8 @@ import O4.Lemmas.HandshakeClient
 import O4.Generated.Facts.Obfs4
 import O4.Lemmas.Obfs4Ref
 import O4.Lemmas.Symbolic
+import O4.Generated.Facts.Ntor
+import O4.Generated.Facts.Csrand
 /-!
 # C02 — the obfs4 client only completes with the holder of the bridge identity key
 
@@ -754,6 +756,23 @@ theorem genuine_request_any_padding_accepted (P : Prims) (hP : HmacLen P) (s0 : 
   refine ⟨E2E.srv_accept hP hs0 C s0 (Or.inl rfl) f H now hwin hnr, hlen, (E2E.blobC_bounds hP hs0 C).2, ?_⟩
   intro hmax
   rw [hlen, hmax]
+  decide
+
+
+/-- **structural fact, regenerated from the Go source on every run (go/ast)**: every package-level
+    variable (file-scope `var`) of the packages this property's mechanisms live in
+    (transports/obfs4, common/ntor, common/csrand) is one of the names below — error values, fixed byte strings,
+    flags and function hooks that the code only reads after initialisation.  The models treat all
+    other state as owned by one connection / one object; a NEW package-level variable (a cache, a
+    pool, a scratch buffer, a pre-keyed hash shared "to save allocations") is how such state comes
+    to be shared between connections and goroutines, which compiles, passes the tests and typically
+    needs true parallelism or a multi-connection history to misbehave.  Adding one breaks this
+    theorem; the concurrent / multi-connection families of the harness then search for the failing
+    schedule. -/
+theorem no_new_package_level_state :
+    O4.Facts.Obfs4.pkg_vars ⊆ ["ErrInvalidHandshake", "ErrMarkNotFoundYet", "ErrNtorFailed", "ErrReplayedHandshake", "biasedDist", "zeroPadBytes"] ∧
+    O4.Facts.Ntor.pkg_vars ⊆ ["mExpand", "protoID", "tKey", "tMac", "tVerify"] ∧
+    O4.Facts.Csrand.pkg_vars ⊆ ["Rand", "Reader", "csRandSourceInstance"] := by
   decide
 
 end C02
